@@ -132,6 +132,15 @@ pub fn gen(seed: u64, idx: u64, tier: Tier) -> Case {
     if idx < nlarge {
         return large_case(&mut rng, idx);
     }
+    if idx % 10 == 5 {
+        // a handle outliving its stream (src/stale.rs): calls through it that return Ok must
+        // still leave a well-formed image
+        let version = if rng.chance(1, 2) { 3 } else { 4 };
+        let mut c = Case::new("C03", "stale-handle", version);
+        c.bufsize = *rng.pick(gen::BUFSIZES);
+        c.ops = crate::stale::gen_ops(&mut rng);
+        return c;
+    }
     if idx % 4 == 0 {
         // sibling churn: 5-9 data-bearing siblings created in a drawn order, then removed in a
         // drawn order (some re-created): exercises every shape of the sibling tree on removal
@@ -176,5 +185,8 @@ pub fn gen(seed: u64, idx: u64, tier: Tier) -> Case {
 }
 
 pub fn run(case: &Case, known: &BTreeSet<String>) -> Outcome {
+    if case.mode == "stale-handle" {
+        return crate::stale::run(case, crate::stale::Judge { property: "C03", image: true, bystanders: false });
+    }
     runner::run_history(case, &flags(), known)
 }
